@@ -278,8 +278,8 @@ pub fn def() -> PropertyDef {
         ],
         subs: vec![
             Sub::enumerate("unit_vectors_exhaustive", unit_cases, unit_oracle),
-            Sub::prop("random_vectors", 40_000, 600_000, 0.3, vec_case, vec_oracle),
-            Sub::prop("multi_modulus_wrappers", 20_000, 300_000, 0.3, |_| poly_case(), poly_oracle),
+            Sub::prop("random_vectors", 300_000, 2_000_000, 0.3, vec_case, vec_oracle),
+            Sub::prop("multi_modulus_wrappers", 150_000, 1_000_000, 0.3, |_| poly_case(), poly_oracle),
         ],
     }
 }
